@@ -226,9 +226,10 @@ Section P.
   Qed.
 
   (* ---------- whole deposit ---------- *)
-  Definition leg_or_skip (s s1 : mstate) (ps : prices) (il : bool) (amount pv : Z) (m : Z) (fs : fees) (g : deposit_leg) : Prop :=
+  (* [imp] is the price impact value of the whole deposit; the leg's share [adj] has its sign *)
+  Definition leg_or_skip (s s1 : mstate) (ps : prices) (il : bool) (amount pv imp : Z) (m : Z) (fs : fees) (g : deposit_leg) : Prop :=
     if amount =? 0 then s1 = s /\ m = 0 /\ fs = mkFees 0 0 /\ g = leg0
-    else exists adj, leg_facts s s1 ps il amount pv adj m fs g.
+    else exists adj, leg_facts s s1 ps il amount pv adj m fs g /\ (0 < adj -> 0 < imp) /\ (adj < 0 -> imp < 0).
 
   Record deposit_facts (s s' : mstate) (l sh : Z) (ps : prices) (r : deposit_report) (t : deposit_trace) : Prop := {
     df_hold_long : holdings s' true = holdings s true + l;
@@ -240,8 +241,8 @@ Section P.
     df_wf : wf_state s';
     df_pv : pool_value w unit cfg s ps MaxAfterDeposit true = Ok (dt_pool_value t) /\ 0 <= dt_pool_value t;
     df_legs : exists s1 s2 m1 m2,
-        leg_or_skip s s1 ps true l (dt_pool_value t) m1 (dr_fees_long r) (dt_long t) /\
-        leg_or_skip s1 s2 ps false sh (dt_pool_value t) m2 (dr_fees_short r) (dt_short t) /\
+        leg_or_skip s s1 ps true l (dt_pool_value t) (dr_impact r) m1 (dr_fees_long r) (dt_long t) /\
+        leg_or_skip s1 s2 ps false sh (dt_pool_value t) (dr_impact r) m2 (dr_fees_short r) (dt_short t) /\
         dr_minted r = m1 + m2 /\ 0 <= m1 /\ 0 <= m2 /\
         s' = set_supply s2 (total_supply s2 + (m1 + m2))
   }.
@@ -255,9 +256,9 @@ Section P.
     - nia.
   Qed.
 
-  Lemma leg_or_skip_ledger s s1 ps il amount pv m fs g :
+  Lemma leg_or_skip_ledger s s1 ps il amount pv imp m fs g :
     wf_state s -> wf_prices ps -> in_range amount -> 0 <= pv -> 0 <= value_to_amount_divisor s ->
-    leg_or_skip s s1 ps il amount pv m fs g ->
+    leg_or_skip s s1 ps il amount pv imp m fs g ->
     holdings s1 il = holdings s il + amount /\ holdings s1 (negb il) = holdings s (negb il) /\
     total_supply s1 = total_supply s /\ same_rest s s1 /\ vi_follows s s1 /\ wf_state s1 /\ 0 <= m.
   Proof.
@@ -265,7 +266,7 @@ Section P.
     - destruct H as (-> & -> & _ & _).
       split; [lia|]. split; [reflexivity|]. split; [reflexivity|]. split; [apply same_rest_refl|].
       split; [apply vi_follows_refl|]. split; [exact Hs|lia].
-    - destruct H as (adj & F). destruct F.
+    - destruct H as (adj & F & _). destruct F.
       split; [assumption|]. split; [assumption|]. split; [assumption|]. split; [assumption|].
       split; [assumption|]. split; [assumption|].
       pose proof Hs as (Hsup & _). unfold MarketProofs.in_range in Hsup.
@@ -292,17 +293,29 @@ Section P.
     match goal with x : (mstate * Z * fees * deposit_leg)%type |- _ => destruct x as [[[s2 m2] f2] g2] end.
     match goal with H : _ = Ok (s2, m2, f2, g2) |- _ => rename H into HS end.
     rinv H. norm. injection H as <- <- <-.
-    assert (L1 : leg_or_skip s s1 ps true l pv m1 f1 g1).
+    assert (Hsign : forall a tot adj imp0, 0 <= a -> 0 <= tot -> mul_div_signed w a imp0 tot = Some adj ->
+                      (0 < adj -> 0 < imp0) /\ (adj < 0 -> imp0 < 0)).
+    { intros a tot adj imp0 A0 T0 M. app mul_div_signed_exact M. destruct M as (Td & Mabs & _ & Mp & Mn).
+      split; intros Hadj.
+      - destruct (Z_lt_le_dec 0 imp0) as [P|P]; [exact P|]. specialize (Mn P). lia.
+      - destruct (Z_lt_le_dec imp0 0) as [P|P]; [exact P|].
+        destruct (Z.eq_dec imp0 0) as [->|N]; [|specialize (Mp ltac:(lia)); lia].
+        rewrite Z.abs_0, Z.mul_0_r, Z.div_0_l in Mabs by lia. lia. }
+    assert (L1 : leg_or_skip s s1 ps true l pv (fst x5) m1 f1 g1).
     { unfold leg_or_skip. destruct (l =? 0) eqn:Zl.
       - injection HL as <- <- <- <-. auto.
-      - rinv HL. app execute_deposit_ok HL. eauto. }
-    pose proof (leg_or_skip_ledger _ _ _ _ _ _ _ _ _ Hs Hps Hl Hpv Hdv L1) as (A1 & A2 & A3 & A4 & A5 & A6 & A7).
+      - rinv HL. app execute_deposit_ok HL.
+        match goal with M : mul_div_signed _ _ _ _ = Some ?adj, U : uadd _ _ _ = Some _ |- _ =>
+          exists adj; split; [exact HL|]; apply uadd_some in U; eapply Hsign; [| |exact M]; lia end. }
+    pose proof (leg_or_skip_ledger _ _ _ _ _ _ _ _ _ _ Hs Hps Hl Hpv Hdv L1) as (A1 & A2 & A3 & A4 & A5 & A6 & A7).
     assert (Hdv1 : 0 <= value_to_amount_divisor s1) by (destruct A4 as (<- & _); exact Hdv).
-    assert (L2 : leg_or_skip s1 s2 ps false sh pv m2 f2 g2).
+    assert (L2 : leg_or_skip s1 s2 ps false sh pv (fst x5) m2 f2 g2).
     { unfold leg_or_skip. destruct (sh =? 0) eqn:Zs.
       - injection HS as <- <- <- <-. auto.
-      - rinv HS. app execute_deposit_ok HS. eauto. }
-    pose proof (leg_or_skip_ledger _ _ _ _ _ _ _ _ _ A6 Hps Hsh Hpv Hdv1 L2) as (B1 & B2 & B3 & B4 & B5 & B6 & B7).
+      - rinv HS. app execute_deposit_ok HS.
+        match goal with M : mul_div_signed _ _ _ _ = Some ?adj, U : uadd _ _ _ = Some _ |- _ =>
+          exists adj; split; [exact HS|]; apply uadd_some in U; eapply Hsign; [| |exact M]; lia end. }
+    pose proof (leg_or_skip_ledger _ _ _ _ _ _ _ _ _ _ A6 Hps Hsh Hpv Hdv1 L2) as (B1 & B2 & B3 & B4 & B5 & B6 & B7).
     cbn [negb] in *.
     constructor; cbn [dr_minted dr_fees_long dr_fees_short dt_pool_value dt_long dt_short].
     - change (holdings s2 true = holdings s true + l). lia.
